@@ -27,7 +27,7 @@ def run(rep):
     res = tlc.require_ok(tlc.run('MC_Serialize', 'MC_Serialize_intent', workers=4, timeout=600, coverage=True), 'MC_Serialize_intent')
     rep.add_tlc(res, 'MC_Serialize_intent (Deterministic over all histories, restarts and set orders)')
     rejected = {}
-    for cfg in ('cache', 'sets'):
+    for cfg in ('cache', 'sets', 'pin'):
         r = tlc.run('MC_Serialize', 'MC_Serialize_' + cfg, workers=2, timeout=300)
         if not r.invariant_violated:
             rep.machinery('MC_Serialize_%s: the defect shape was NOT rejected' % cfg)
